@@ -194,12 +194,12 @@ fn forward_case(l0: usize, l1: usize) {
 
 // @harness c15_forward_small
 // @props C15 C03
-// @tier quick
+// @tier thorough
 // @variant dl128_lists2
 // @features none
 // @stubbing yes
-// @timeout 1800
-// @mem 14
+// @timeout 3600
+// @mem 30
 // @functions Port::send_announce, TlvSetBuilder::add, ForwardedTLV::size, Tlv::wire_size
 // @bounds master port, provider queue of two TLVs with value lengths (6, 8), TLV types PATH_TRACE or ORGANIZATION_EXTENSION_PROPAGATE (symbolic choice), each from the parent or from another sender, path trace on/off (empty received path)
 // @assume provider honours the documented contract of next_if_smaller (returns the next TLV iff its wire size <= max_size); MAX_DATA_LEN scaled to 128 (room 64); recording serialize stub
@@ -211,11 +211,12 @@ fn c15_forward_small() { forward_case(6, 8) }
 
 // @harness c15_forward_exact_fit
 // @props C15 C03
-// @tier quick
+// @tier thorough
 // @variant dl128_lists2
+// @features none
 // @stubbing yes
-// @timeout 1800
-// @mem 14
+// @timeout 3600
+// @mem 30
 // @functions Port::send_announce, TlvSetBuilder::add
 // @bounds as c15_forward_small with value lengths (60, 0): the first TLV's wire size equals the whole room (64) when path trace is off
 // @assume as c15_forward_small
@@ -227,11 +228,12 @@ fn c15_forward_exact_fit() { forward_case(60, 0) }
 
 // @harness c15_forward_second_exact_fit
 // @props C15 C03
-// @tier quick
+// @tier thorough
 // @variant dl128_lists2
+// @features none
 // @stubbing yes
-// @timeout 1800
-// @mem 14
+// @timeout 3600
+// @mem 30
 // @functions Port::send_announce, TlvSetBuilder::add
 // @bounds as c15_forward_small with value lengths (20, 36): the second TLV's wire size equals the remaining room (40) after the first
 // @assume as c15_forward_small
@@ -243,11 +245,12 @@ fn c15_forward_second_exact_fit() { forward_case(20, 36) }
 
 // @harness c15_forward_too_big
 // @props C15 C03
-// @tier quick
+// @tier thorough
 // @variant dl128_lists2
+// @features none
 // @stubbing yes
-// @timeout 1800
-// @mem 14
+// @timeout 3600
+// @mem 30
 // @functions Port::send_announce, TlvSetBuilder::add
 // @bounds as c15_forward_small with value lengths (62, 4): the first TLV is two octets larger than the room and must stay queued, blocking the second
 // @assume as c15_forward_small
@@ -259,11 +262,12 @@ fn c15_forward_too_big() { forward_case(62, 4) }
 
 // @harness c15_forward_dropped_uses_no_room
 // @props C15
-// @tier quick
+// @tier thorough
 // @variant dl128_lists2
+// @features none
 // @stubbing yes
-// @timeout 1800
-// @mem 14
+// @timeout 3600
+// @mem 30
 // @functions Port::send_announce, TlvSetBuilder::add
 // @bounds as c15_forward_small with value lengths (28, 36): wire sizes 32 + 40 exceed the room (64) together, each fits alone - a dropped first TLV must not use up room
 // @assume as c15_forward_small
